@@ -21,7 +21,8 @@ LEVEL_TEXT = (
     'at the first non-neutral argument, an error anywhere in an evaluated argument is the result, otherwise the '
     'conjunction / disjunction of the non-blank elements), not_spec, refinement of the Spec combinators '
     '(if_refines, and_or_refines, not_refines) and the embedding into the shared evaluator model (evalFx_iff, '
-    'evalSc_eq, SCs_eq_SC, evalEntry_fx). Tied to the code by formulas evaluated with a spy function: all truth '
+    'evalSc_eq, SCs_eq_SC, evalSc_eq_SC, evalFx_sc, evalLx_andor_fx: Fx.sc of the evaluator model IS the AND / OR '
+    'body for scalar AND range arguments; evalEntry_fx). Tied to the code by formulas evaluated with a spy function: all truth '
     'assignments of TRUE, FALSE, 0, 1, 2.5, -1, blank to <= 4 cells, all argument counts 1..5 of AND/OR with '
     'ranges and blanks, poisoned branches (unknown function, 1/0, self reference, raising cell, spy), random '
     'nestings; (value, spy log) against the Spec interpreter and exactly against the model.')
@@ -435,6 +436,72 @@ def random_cases(rng_, n):
     return cases
 
 
+def range_sc_cases(thorough):
+    """AND / OR with RANGE arguments and no SPY call in the entry formula: such a formula is expressible in the shared
+    evaluator model (`Lx.toFx?` = some: `Fx.sc` flattens its evaluated arguments), so the driver evaluates it a second
+    time through `Evaluator.evaluate` / `evalSc` (impl2, log2).  Laziness stays observable: the arguments after the
+    range are formula cells wrapped in SPY(1000+index, …) (C1, C2), logged by both sides when they are evaluated."""
+    cases = []
+    spies = [(f'{S1}!C1', ('lit', True)), (f'{S1}!C2', ('lit', False)), (f'{S1}!C3', ('fail', []))]
+    c1, c2, c3 = ref('C1'), ref('C2'), ref('C3')
+    shapes3 = [
+        ('and-range3-fx', lambda: ('and', [rng('B1:B3'), c1])),
+        ('or-range3-fx', lambda: ('or', [rng('B1:B3'), c2])),
+        ('and-range3-poison-fx', lambda: ('and', [c1, rng('B1:B3'), c3])),
+        ('or-range3-poison-fx', lambda: ('or', [c2, rng('B1:B3'), ref('A1')])),
+        ('if-and-range3-fx', lambda: ('if3', ('and', [rng('B1:B2'), B[2]]), c1, c2)),
+        ('not-or-range3-fx', lambda: ('not', ('or', [B[0], rng('B2:B3')]))),
+    ]
+    vals3 = TRUTH_VALUES + [''] if thorough else [True, False, 0, 2.5, None, '']
+    for tag, mk in shapes3:
+        for vals in assignments(3, vals3):
+            cases.append(Case(tag, consts_of(vals), list(spies), mk()))
+    shapes4 = [
+        ('and-range4-fx', lambda: ('and', [rng('B1:B4'), c1])),
+        ('or-2ranges-fx', lambda: ('or', [rng('B1:B2'), rng('B3:B4'), c2])),
+        ('and-or-range4-fx', lambda: ('and', [('or', [rng('B1:B2'), c2]), rng('B3:B4'), c1])),
+    ]
+    vals4 = TRUTH_VALUES if thorough else [True, False, 0, None]
+    for tag, mk in shapes4:
+        for vals in assignments(4, vals4):
+            cases.append(Case(tag, consts_of(vals), list(spies), mk()))
+    # an error cell (=1/0, a formula cell) at every position of the range, also AFTER a deciding item (D1001)
+    for pos in range(3):
+        for others in itertools.product([True, False, 1, 0, None], repeat=2):
+            consts, sp, k = {}, [], 0
+            for i in range(3):
+                a = f'{S1}!B{i + 1}'
+                if i == pos:
+                    sp.append((a, ('app', 3, [('lit', 1), ('lit', 0)])))
+                else:
+                    consts[a] = others[k]
+                    k += 1
+            sp.append((f'{S1}!C1', ('lit', True)))
+            for isand in ('and', 'or'):
+                cases.append(Case(f'{isand}-range-error-at-{pos}-fx', dict(consts), list(sp), (isand, [rng('B1:B3'), c1])))
+                cases.append(Case(f'{isand}-range-error-at-{pos}-second-fx', dict(consts), list(sp),
+                                  (isand, [lit(isand == 'and'), rng('B1:B3'), c1])))
+    return cases
+
+
+def has_range_sc(e):
+    """an AND / OR node with a range among its direct arguments"""
+    k = e[0]
+    if k in ('and', 'or'):
+        return any(a[0] == 'rng' for a in e[1]) or any(has_range_sc(a) for a in e[1])
+    if k == 'app':
+        return any(has_range_sc(a) for a in e[2])
+    if k in ('if3', 'if2', 'if1'):
+        return any(has_range_sc(a) for a in e[1:])
+    if k == 'fail':
+        return any(has_range_sc(a) for a in e[1])
+    if k == 'not':
+        return has_range_sc(e[1])
+    if k == 'spy':
+        return has_range_sc(e[2])
+    return False
+
+
 # ------------------------------------------------------------------------------ direct calls of the bodies
 
 def direct_cases(real, res, ctx):
@@ -498,7 +565,10 @@ def run(ctx):
                 '4 cells), (b) errors as condition / argument and at every position of a range, (c) every lazy position '
                 'poisoned by an unknown function, a self reference, a raising cell, a cell closing a cycle, for every '
                 'condition value, (d) random nestings of depth <= 4 over random assignments, (e) the function objects '
-                'called directly with logging thunks. Observable (value | failure, spy log) vs Spec.C10.eval and vs the model '
+                'called directly with logging thunks, (f) 9 spy-free shapes of AND / OR with RANGE arguments (x all assignments '
+                'incl. empty text; an error cell at every position of the range) which are ALSO evaluated through the shared '
+                'evaluator model (Fx.sc flattens its arguments; formula cells C1..C3 make laziness visible in the log). '
+                'Observable (value | failure, spy log) vs Spec.C10.eval and vs the model '
                 '(exactly, including message lengths). non-trivial = distinct (formula, assignment) in which some spy, poison '
                 'or argument is NOT evaluated (lazy selection visible) or the result is an error / failure')
     real = Real()
@@ -506,6 +576,7 @@ def run(ctx):
     cases += error_cases()
     cases += poison_cases()
     cases += exhaustive_cases(thorough)
+    cases += range_sc_cases(thorough)
     cases += random_cases(ctx.rng, 60000 if thorough else 2500)
     if ctx.replay:
         import json
@@ -579,6 +650,8 @@ def run(ctx):
                                       'model': [d['impl'], d['log']], 'shared': [d['impl2'], d['log2']]})
                 if d['impl2'] != '-':
                     res.count('also-through-Fx.iff/Fx.sc')
+                    if c.expr and has_range_sc(c.expr):
+                        res.count('range-argument-through-Fx.sc')
             if res.evaluations % 499 == 7:
                 res.sample({'formula': c.text, 'cells': {k: v for k, v in c.real.items() if k != ENTRY}, 'real': out,
                             'spy_log': log, 'spec': spec, 'spec_log': slog, 'model': d['impl']})
